@@ -56,6 +56,30 @@ def judgeC11 (j : Json) : R Verdict := do
         if !(← bool (← field rt "queries_same")) then spec := spec ++ ["roundtrip:queries"]
         if !unordered && !(← bool (← field rt "reencode_same")) then spec := spec ++ ["roundtrip:reencode"]
     return { i, corr, spec, key, tags, nt := true }
+  | "nest" =>
+    -- the real decoder and the model reader (with ciborium's recursion budget) on the same bytes
+    let bytes ← hex (← field j "bytes")
+    let slot ← str (← field j "slot")
+    let w ← nat (← field j "wrapper")
+    let d ← nat (← field j "depth")
+    let obs ← field j "obs"
+    let key := fnv (fieldD j "bytes").compress
+    let mut corr : List String := []
+    let mut spec : List String := []
+    let mut tags : List String := [gen, "slot:" ++ slot]
+    if !(isNull (fieldD obs "panic")) || !((fieldD j "panics").getArr?.toOption.getD #[]).isEmpty then
+      return { i, corr, spec := ["no-panic:from_bytes:nesting"], key, tags, nt := true }
+    let realOk ← bool (← field obs "ok")
+    let unbounded := Wire.fromBytesUnbounded bytes
+    let model := Wire.fromBytes bytes
+    match unbounded with
+    | none => corr := corr ++ ["nest:model-reader-rejects-structure"]
+    | some t =>
+      tags := tags ++ [if Wire.nestTx t ≤ Wire.recursionLimit then "within-budget" else "beyond-budget"]
+      if model.isSome != realOk then
+        corr := corr ++ [s!"nest-boundary:slot={slot}:wrapper={w}:depth={d}:model-nest={Wire.nestTx t}:impl-ok={realOk}"]
+    if !(← bool (← field j "monotone")) then corr := corr ++ ["nest:acceptance-not-downward-closed"]
+    return { i, corr, spec, key, tags, nt := true }
   | "version" =>
     let v ← str (← field j "version")
     let o ← str (← field j "obs")
